@@ -41,7 +41,7 @@ func (c *Chain) DeployWith(signers []neotest.Signer, cc *Compiled, data any) (*O
 func (c *Chain) mustDeploy(cc *Compiled, data any) util.Uint160 {
 	o, h := c.DeployWith(c.Both(), cc, data)
 	if !o.Halt {
-		panic(Failure{Msg: "fixture: deploy of " + cc.Manifest.Name + " failed: " + o.Fault})
+		panic(HarnessError{Msg: "fixture: deploy of " + cc.Manifest.Name + " failed: " + o.Fault})
 	}
 	return h
 }
@@ -53,11 +53,11 @@ func (f *FS) RegisterNNS(name string, h util.Uint160) {
 	nns := f.H["nns"]
 	o := f.Invoke(f.Both(), nns, "register", name+".neofs", f.Committee.ScriptHash(), "ops@nspcc.ru", int64(3600), int64(600), tenYearsSec, int64(3600))
 	if b, ok := o.Bool(); !o.Halt || !ok || !b {
-		panic(Failure{Msg: "fixture: NNS register " + name + ": " + o.String()})
+		panic(HarnessError{Msg: "fixture: NNS register " + name + ": " + o.String()})
 	}
 	o = f.Invoke(f.Both(), nns, "addRecord", name+".neofs", int64(16), h.StringLE())
 	if !o.Halt {
-		panic(Failure{Msg: "fixture: NNS addRecord " + name + ": " + o.String()})
+		panic(HarnessError{Msg: "fixture: NNS addRecord " + name + ": " + o.String()})
 	}
 }
 
@@ -115,6 +115,6 @@ func (c *Chain) Designate(role noderoles.Role, pubs keys.PublicKeys) {
 	}
 	o := c.Invoke(c.Both(), c.NativeHash(nativenames.Designation), "designateAsRole", int64(role), arr)
 	if !o.Halt {
-		panic(Failure{Msg: "fixture: designateAsRole: " + o.Fault})
+		panic(HarnessError{Msg: "fixture: designateAsRole: " + o.Fault})
 	}
 }
